@@ -169,7 +169,7 @@ def decodeMessage (dec : Oracle) (strict : Bool) (s : Service) (M : Bytes) : Exc
   let codingObjects := (candidateCodings s).filter fun co => (codedConstPrefix rp co).isPrefixOf M
   match collectResults dec M codingObjects with
   | .error e => .error e
-  | .ok [] => if strict then .error .decode else .ok none           -- odxraise(…, DecodeError); return Message(coding_object=None)
+  | .ok [] => .error .decode                                        -- raise DecodeError (unconditional since the c17 fix)
   | .ok [co] => .ok (some co)
   | .ok (co :: _ :: _) => if strict then .error .decode else .ok (some co)   -- odxraise("cannot uniquely decode"); return result_list[0]
 
